@@ -49,6 +49,7 @@ func init() {
 	add("C04", 120, 4000)
 	add("C10", 120, 4000)
 	add("C12", 60, 2000)
+	add("C14", 60, 2000)
 }
 
 func famLifecycle(w *World, c *Case, rng *rand.Rand) {
@@ -100,9 +101,18 @@ func famLifecycle(w *World, c *Case, rng *rand.Rand) {
 		case op < 3:
 			trace = append(trace, "Serve")
 			before := len(serves)
+			linksBefore := len(w.Conn.Links())
 			startServe()
 			settle()
 			if stopped || closing {
+				// a refused Serve must not leave the stream it opened behind (the peer's
+				// serving call, its goroutines) for as long as the caller's context lives
+				for _, l := range w.Conn.Links()[linksBefore:] {
+					cd, _ := l.ClientDone()
+					if !cd || !l.ServerDone() {
+						w.Violate("C14", "refused-serve-left-stream-open", "lifecycle %v: Serve was refused (server stopping) but the carrier stream it opened is still open (client side finished: %v, peer's serving call returned: %v)", trace, cd, l.ServerDone())
+					}
+				}
 				// a Serve call on a stopping / stopped server must fail at once
 				cl := serves[before]
 				select {
